@@ -534,7 +534,11 @@ async def disk_case(rng, guard, hids, witness=None):
     from stepup.core.file import File
     from stepup.core.hash import StepHash
     from stepup.core.step import Step
-    wfkw = {"targets": frozenset({Path("o1.txt")})} if guard == "targets" else {}
+    wfkw = {}
+    if guard == "targets":
+        wfkw = {"targets": frozenset({Path("o1.txt")})}
+    elif guard == "target_dirs":
+        wfkw = {"target_dirs": frozenset({Path("d1/")})}
     res = {"guard": guard}
     async with WF(**wfkw) as w:
         Path("plan.py").write_text("#!/usr/bin/env python3\n")
@@ -743,3 +747,137 @@ def oracle_c07(res):
         if d and d in after and not any(q.startswith(d + "/") for q in after):
             out.append(("finalize:empty-dir-kept", f"{d} became empty by removing {p} and is still there"))
     return out
+
+
+# ---------------------------------------------------------------------------------------------
+# E3 part: generated histories through the real serve(); what disappears from disk per build
+# ---------------------------------------------------------------------------------------------
+
+OUTPUT_STATE_NAMES = {"PLANNED", "BUILT", "OUTDATED", "VOLATILE"}
+
+
+def e3_available():
+    try:
+        from . import e3, e3_gen  # noqa: F401
+        return True
+    except Exception:  # noqa: BLE001
+        return False
+
+
+def e3_histories(rng, n, seed_base):
+    """Run n generated histories; yield per build a record for the oracles."""
+    from . import e3, e3_gen
+    records = []
+    for k in range(n):
+        seed = seed_base + k
+        project, history = e3_gen.gen_case(seed, max_phases=4)
+        project = project.clone()
+        with tempfile.TemporaryDirectory(prefix="verif-clean-e3-") as root:
+            project.materialise(root)
+            owned = {}            # path -> digest of what a step command last wrote
+            prev_graph = {}
+            phases = [{"edits": []}] + history
+            for i, phase in enumerate(phases):
+                for edit in phase.get("edits", []):
+                    e3.apply_edit(project, root, edit)
+                tampered = []
+                # the user overwrites files StepUp wrote (not through the project description)
+                for p in sorted(owned):
+                    full = os.path.join(root, p)
+                    if os.path.isfile(full) and rng.random() < 0.12:
+                        e3.write_file(full, "user tampered " + p)
+                        tampered.append(p)
+                before_files, _, before_dirs = e3.snapshot_tree(root)
+                r = rng.random()
+                kw = {"clean": r >= 0.12}
+                if 0.12 <= r < 0.22 and owned:
+                    kw["targets"] = [sorted(owned)[0]]
+                try:
+                    res = e3.build(root, project.program, env=dict(project.env), resources="tok:2", timeout=120, **kw)
+                except e3.E3Error as exc:
+                    records.append({"seed": seed, "phase": i, "error": str(exc)[:300]})
+                    break
+                graph = e3.parse_graph(res.graph)
+                records.append({"seed": seed, "phase": i, "kw": kw, "rc": res.returncode, "tampered": tampered,
+                                "before_files": before_files, "before_dirs": before_dirs,
+                                "after_files": res.files, "after_dirs": res.dirs, "owned": dict(owned),
+                                "sources": sorted(project.sources), "graph": graph, "prev_graph": prev_graph,
+                                "edits": phase.get("edits", []),
+                                "removed_events": [e[1] for e in res.events if e[0] == "REMOVE"]})
+                for c in res.commands:
+                    for path, digest, _ in c["writes"]:
+                        owned[path] = digest
+                prev_graph = graph
+    return records
+
+
+def _gstate(graph, p):
+    for key in (f"file:{p}", f"(file:{p})"):
+        if key in graph:
+            st = graph[key]["props"].get("state", [None])[0]
+            return st, key.startswith("(")
+    return None, None
+
+
+def e3_oracle_c06(rec):
+    from . import e3
+    out = []
+    if "error" in rec:
+        return out
+    bf, af = rec["before_files"], rec["after_files"]
+    removed = sorted(p for p in bf if p not in af)
+    removed_dirs = sorted(d for d in rec["before_dirs"] if d not in rec["after_dirs"])
+    is_guarded = bool(rec["kw"].get("targets")) or not rec["kw"].get("clean", True) or (rec["rc"] & ~8) != 0
+    if is_guarded and (removed or removed_dirs):
+        why = "targets" if rec["kw"].get("targets") else ("no-clean" if not rec["kw"].get("clean", True) else "returncode")
+        out.append((f"oracle:e3:guard-ignored:{why}", f"guarded build (rc={rec['rc']}, {rec['kw']}) removed {removed} {removed_dirs}"))
+        return out
+    srcs = set(rec["sources"])
+    for p in removed:
+        if p in srcs:
+            out.append(("oracle:e3:removed-file:source", f"{p} is a source file of the project and was removed"))
+        elif p not in rec["owned"]:
+            out.append(("oracle:e3:removed-file:never-written-by-a-step", f"{p} was removed; no step of any earlier build wrote it"))
+        elif e3._digest(bf[p]) != rec["owned"][p]:
+            st, _ = _gstate(rec["prev_graph"], p)
+            if st != "VOLATILE":
+                out.append(("oracle:e3:removed-file:modified-output",
+                            f"{p} was modified after StepUp wrote it (state {st}) and was removed"))
+    for d in removed_dirs:
+        if f"st:{d}" in rec["graph"]:
+            out.append(("oracle:finalize:removed-dir:attached-static-tree",
+                        f"directory {d} is still declared as a static tree and was removed (E3 seed {rec['seed']} phase {rec['phase']})"))
+        elif d in srcs and any(s.startswith(d) and s != d for s in srcs):
+            out.append(("oracle:e3:removed-dir:holds-sources", f"{d} still holds source files and was removed"))
+    return out
+
+
+def e3_oracle_c07(rec):
+    from . import e3
+    out = []
+    if "error" in rec:
+        return out
+    if rec["kw"].get("targets") or not rec["kw"].get("clean", True) or (rec["rc"] & ~8) != 0:
+        return out
+    srcs = set(rec["sources"])
+    for p, content in rec["after_files"].items():
+        if p in srcs or p not in rec["owned"] and p not in rec["before_files"]:
+            continue
+        st, det = _gstate(rec["graph"], p)
+        if st is not None:
+            continue      # still a node of the graph: attached output, or held (E2/theorem side)
+        if p not in rec["owned"]:
+            continue      # never written by a step: a user file
+        if e3._digest(rec["before_files"].get(p)) != rec["owned"][p]:
+            continue      # modified by the user: must stay
+        pst, _ = _gstate(rec["prev_graph"], p)
+        if pst in ("BUILT", "OUTDATED", "VOLATILE"):
+            out.append(("oracle:e3:orphan-file-kept",
+                        f"{p} (was {pst}) is unmodified, no longer in the graph, and still on disk (seed {rec['seed']} phase {rec['phase']})"))
+    return out
+
+
+def e3_witness(rec):
+    return {"e3_seed": rec["seed"], "phase": rec["phase"], "build": rec.get("kw"), "rc": rec.get("rc"),
+            "edits": rec.get("edits"), "tampered": rec.get("tampered"), "removed_events": rec.get("removed_events"),
+            "how": "harness.e3_gen.gen_case(seed, max_phases=4) replayed phase by phase with harness.e3.build"}
